@@ -5,7 +5,7 @@ cd /verif
 git -C /repo diff --quiet || { echo "/repo not clean"; exit 3; }
 git -C /repo apply $D/patch.diff || { echo "BENIGN $N: patch does not apply"; exit 3; }
 res=""
-for P in C01 C02 C03 C04 C05 C06 C07 C08 C09 C11 C12 C13 C20; do
+for P in C01 C02 C03 C04 C05 C06 C07 C08 C09 C10 C11 C12 C13 C20; do
   out=$(VT_CACHE=1 VT_SKIP_VACUITY=1 ./check $P 2>&1); rc=$?
   res="$res $P=$rc"
   if [ $rc -ne 0 ]; then echo "   $P -> $(echo "$out" | grep -E 'VIOLATION|UNDECIDED' | head -2 | cut -c1-300)"; fi
